@@ -223,6 +223,7 @@ var (
 	flagDump    = flag.Bool("dumplog", false, "print the event log of every run")
 	flagReplays = flag.String("replaydir", "", "directory for replay files of violations")
 	flagKeep    = flag.Int("samples", 1, "number of sample traces to emit")
+	flagGenOnly = flag.String("genonly", "", "write the generated configuration and operations of -seed to this file and exit")
 )
 
 func TestSim(t *testing.T) {
@@ -330,10 +331,14 @@ func runOne(world, prop string, seed uint64, rp *Replay) *Result {
 	}()
 	var simElapsed time.Duration
 	var bubblePanic interface{}
+	var bubbleStacks string
 	func() {
 		defer func() {
 			if r := recover(); r != nil {
 				bubblePanic = r
+				buf := make([]byte, 1<<20)
+				n := runtime.Stack(buf, true)
+				bubbleStacks = string(buf[:n])
 			}
 		}()
 		synctest.Test(theT, func(_ *testing.T) {
@@ -366,9 +371,15 @@ func runOne(world, prop string, seed uint64, rp *Replay) *Result {
 	runtime.VerifSimSeed(0)
 	if bubblePanic != nil {
 		msg := fmt.Sprint(bubblePanic)
-		if strings.Contains(msg, "deadlock") {
+		if strings.Contains(msg, "main bubble goroutine has exited") {
+			// goroutines left behind at the end of the run (e.g. the disk-queue
+			// loop of an orphaned channel): recorded, not a property violation
+			rc.Probe("goroutines_left_at_end")
+			rc.Logf("goroutines left at end: %s", blockedSummary(bubbleStacks))
+		} else if strings.Contains(msg, "deadlock") {
 			// every goroutine of the bubble is durably blocked and nothing can wake them
-			rc.Violate(rc.Prop, "deadlock", "bubble deadlock after step %d: %s", rc.step, firstLine(msg))
+			rc.Violate(rc.Prop, "deadlock", "bubble deadlock after step %d: %s; blocked: %s", rc.step, firstLine(msg), blockedSummary(bubbleStacks))
+			rc.Logf("goroutines at deadlock:\n%s", bubbleStacks)
 		} else {
 			fmt.Printf("HARNESS-PANIC world=%s seed=%d: %v\n%s\n", world, seed, bubblePanic, debug.Stack())
 			os.Stdout.Write(tail(rc.log.Bytes(), 6000))
@@ -400,6 +411,19 @@ func runOne(world, prop string, seed uint64, rp *Replay) *Result {
 	return res
 }
 
+// GenOnly: when -genonly is given the world stops after generation and the
+// runner gets the explicit operation list of a seed (used for crashing seeds).
+func (rc *RunCtx) GenOnly(cfg interface{}, ops []Op) bool {
+	if *flagGenOnly == "" {
+		return false
+	}
+	cb, _ := json.Marshal(cfg)
+	rp := Replay{World: rc.World, Prop: rc.Prop, Seed: rc.Seed, Cfg: cb, Ops: ops}
+	b, _ := json.MarshalIndent(rp, "", " ")
+	os.WriteFile(*flagGenOnly, b, 0644)
+	return true
+}
+
 func (rc *RunCtx) writeReplay(cfg interface{}, ops []Op) {
 	if *flagReplays == "" {
 		return
@@ -420,6 +444,39 @@ func (rc *RunCtx) writeReplay(cfg interface{}, ops []Op) {
 	p := filepath.Join(*flagReplays, fmt.Sprintf("%s-%s-%d.json", prop, rc.World, rc.Seed))
 	os.WriteFile(p, b, 0644)
 	rc.Res.Replay = p
+}
+
+// blockedSummary lists the top nsq frame of every goroutine in a stack dump.
+func blockedSummary(stacks string) string {
+	var out []string
+	seen := map[string]int{}
+	for _, g := range strings.Split(stacks, "\n\n") {
+		if !strings.Contains(g, "synctest bubble") {
+			continue
+		}
+		top := ""
+		for _, ln := range strings.Split(g, "\n") {
+			if strings.HasPrefix(ln, "github.com/nsqio/") || strings.HasPrefix(ln, "verifsim/") {
+				top = ln
+				if i := strings.IndexByte(top, '('); i > 0 && !strings.HasPrefix(top[i:], "(*") {
+					top = top[:i]
+				}
+				break
+			}
+		}
+		if top == "" {
+			top = firstLine(g)
+		}
+		if seen[top] == 0 {
+			out = append(out, top)
+		}
+		seen[top]++
+	}
+	sort.Strings(out)
+	if len(out) > 8 {
+		out = out[:8]
+	}
+	return strings.Join(out, " | ")
 }
 
 func tail(b []byte, n int) []byte {
